@@ -636,10 +636,10 @@ def create_tree_likelihood(id_, taxa, alignment, arg):
         tree_id = "tree"
         tree_model = create_tree_model(tree_id, taxa, arg)
         if arg.clock is not None:
-            branch_model_id = "branchmodel"
             branch_model = create_branch_model(
-                branch_model_id, tree_id, len(taxa["taxa"]), arg, rate_init
+                "branchmodel", tree_id, len(taxa["taxa"]), arg, rate_init
             )
+            branch_model_id = branch_model["id"]
 
         like_list = []
         for tag, indices, t, b, w in zip(
